@@ -129,6 +129,9 @@ func (t *trigLog) create(c *column.Collection, name, col string) error {
 }
 
 func (t *trigLog) drop(c *column.Collection, name string) error {
+	if _, ok := t.watch[name]; !ok {
+		return nil // created on an earlier incarnation of the collection (before a restart)
+	}
 	err := c.DropTrigger(name)
 	delete(t.watch, name)
 	for i, n := range t.order {
